@@ -84,7 +84,36 @@ def field_map(m, d):
 
 
 class Launch:
-  __slots__ = ("kernel", "dim", "binding", "shapes", "scalars", "model", "sizes")
+  __slots__ = ("kernel", "dim", "binding", "shapes", "scalars", "model", "sizes", "dim_src", "site")
+
+
+_file_asts = {}
+
+
+def _launch_dim_source(frame):
+  """source text of the `dim` argument of the wp.launch call executing in `frame` (exact, from the host AST)."""
+  import ast
+
+  fn, ln = frame.f_code.co_filename, frame.f_lineno
+  try:
+    if fn not in _file_asts:
+      _file_asts[fn] = ast.parse(open(fn).read())
+    best = None
+    for n in ast.walk(_file_asts[fn]):
+      if isinstance(n, ast.Call) and isinstance(n.func, ast.Attribute) and n.func.attr == "launch" and n.lineno <= ln <= getattr(n, "end_lineno", n.lineno):
+        if best is None or n.lineno >= best.lineno:
+          best = n
+    if best is None:
+      return None, f"{fn}:{ln}"
+    dim = None
+    for kw in best.keywords:
+      if kw.arg == "dim":
+        dim = kw.value
+    if dim is None and len(best.args) >= 2:
+      dim = best.args[1]
+    return (ast.unparse(dim) if dim is not None else None), f"{fn.split('/')[-1]}:{best.lineno}"
+  except Exception:
+    return None, f"{fn}:{ln}"
 
 
 def harvest(models=None, variants=None, nworld=2, steps=2, extra=None, log=None, batched=("dense-newton-pyr", "sparse-newton-ell")):
@@ -115,6 +144,9 @@ def harvest(models=None, variants=None, nworld=2, steps=2, extra=None, log=None,
         L.scalars.append(a)
     L.model = cur["name"]
     L.sizes = cur["sizes"]
+    import sys
+
+    L.dim_src, L.site = _launch_dim_source(sys._getframe(1))
     out.setdefault(kernel.key, []).append(L)
     return orig(kernel, dim, inputs=inputs, outputs=outputs, **kw)
 
